@@ -182,3 +182,35 @@ func TestReplayConverging(t *testing.T) {
 		{Kind: "up", Changes: []achg{{0, 0}, {1, 2}}},
 	}})
 }
+
+// Reconnect family (no finding on the pinned tree: positive pins that fail through the generated search's
+// signatures if the active ever lets an old stream handler's teardown take the new stream's registration).
+func TestReplayStaleHandlerTeardownKeepsNewStream(t *testing.T) {
+	defer failIfInconclusive(t)
+	mirror, err := standbyStreamHeaders()
+	if err != nil {
+		setInconclusive("%v", err)
+		return
+	}
+	push := func(id int) rcStep { return rcStep{Kind: rcPush, Chg: achg{Kind: 0, ID: id}} }
+	for _, hdr := range []int{hdrMirror, hdrBare, hdrExtra} {
+		c := rcCase{Steps: []rcStep{
+			{Kind: rcReconnect, Hdr: hdr}, push(0),
+			{Kind: rcReconnect, HalfOpen: true, Hdr: hdr}, // the old handler lives on
+			push(1),
+			{Kind: rcNotice}, // ... and is torn down after the standby is back
+			push(2), {Kind: rcHeartbeat}, push(0),
+			{Kind: rcReconnect, SameAddr: true, Hdr: hdr}, push(3),
+		}}
+		reportRc(t, "replay/reconnect-bubble", runRcInBubble(t, c, mirror))
+		reportRc(t, "replay/reconnect-loopback", runRcOverLoopback(c, mirror))
+	}
+	// end to end: half-open connection, then plain restarts of the standby
+	runE2ECase(t, e2eCase{HeartbeatMS: 50, Phases: []e2ePhase{
+		{Kind: "up", Changes: []achg{{0, 0}, {0, 1}}},
+		{Kind: "halfopen", Changes: []achg{{1, 0}, {0, 2}}},
+		{Kind: "restart", Changes: []achg{{2, 1}}},
+		{Kind: "restart", Changes: []achg{{0, 3}}},
+		{Kind: "up", Changes: []achg{{1, 3}}},
+	}})
+}
